@@ -370,6 +370,8 @@ type crashState struct {
 	nextAck    int                       // next workload op index not yet acked
 	nextIss    int
 	lastSyncFS int         // log index of the last global sync before k (-1 none)
+	destroyed  map[string]bool // keys whose destroy returned before k
+	recreated  map[string]bool // ... and that were created again before k
 	dropped    []*simos.Op // power-loss image under evaluation: dropped/torn ops
 }
 
@@ -411,7 +413,7 @@ func (cs *crashState) advance(k int) {
 	for cs.nextIss < cs.lt.to {
 		mk := cs.lt.marks[cs.nextIss]
 		op := cs.w.Ops[cs.nextIss]
-		if op.Kind != "write" && op.Kind != "create" && op.Kind != "restart" {
+		if op.Kind != "write" && op.Kind != "create" && op.Kind != "restart" && op.Kind != "destroy" {
 			cs.nextIss++
 			continue
 		}
@@ -426,18 +428,37 @@ func (cs *crashState) advance(k int) {
 	for cs.nextAck < cs.lt.to {
 		mk := cs.lt.marks[cs.nextAck]
 		op := cs.w.Ops[cs.nextAck]
-		if op.Kind != "write" && op.Kind != "create" && op.Kind != "restart" {
+		if op.Kind != "write" && op.Kind != "create" && op.Kind != "restart" && op.Kind != "destroy" {
 			cs.nextAck++
 			continue
 		}
+		if op.Kind == "destroy" && mk.issue >= 0 && mk.issue < k {
+			// from the moment a destroy is issued nothing is required of the bucket
+			// any more (it may be half removed); what it held may still be seen until
+			// the destroy has returned
+			cs.acked.Destroy(op.Key)
+			delete(cs.exists, op.Key)
+		}
 		if mk.ack < 0 || mk.ack >= k {
 			break
+		}
+		if op.Kind == "destroy" && mk.ok {
+			// destroyed: a bucket created later under the same key starts empty, rows
+			// of the old incarnation in it would be phantoms
+			cs.issued[op.Key] = map[int64]bool{}
+			if cs.destroyed == nil {
+				cs.destroyed, cs.recreated = map[string]bool{}, map[string]bool{}
+			}
+			cs.destroyed[op.Key] = true
 		}
 		if mk.ok {
 			switch op.Kind {
 			case "create":
 				cs.acked.Create(op.B)
 				cs.exists[op.B.Key()] = op.B
+				if cs.destroyed[op.B.Key()] {
+					cs.recreated[op.B.Key()] = true
+				}
 			case "write":
 				cs.acked.ApplyWrite(op.W...)
 				for _, wr := range op.W {
@@ -456,7 +477,7 @@ func (cs *crashState) inflight(k int) *WOp {
 	i := cs.nextAck
 	for i < cs.lt.to {
 		op := cs.w.Ops[i]
-		if op.Kind == "write" || op.Kind == "create" || op.Kind == "restart" {
+		if op.Kind == "write" || op.Kind == "create" || op.Kind == "restart" || op.Kind == "destroy" {
 			break
 		}
 		i++
@@ -706,8 +727,15 @@ func (cs *crashState) check(prop string, k int, imgKind string, rc *recovered, i
 			if o == nil {
 				continue
 			}
+			// a bucket that was destroyed and created again: Destroy is not logged, so
+			// recovery replays the old incarnation's un-checkpointed transactions into
+			// the new files (one cause, whatever the crash window)
+			pwin := win
+			if cs.recreated[key] {
+				pwin = "bucket-recreated-after-destroy"
+			}
 			if o.bad != nil {
-				vs = append(vs, mk("row-corrupt", "row-corrupt|"+kindOf(b)+"|"+win, fmt.Sprintf("bucket %s after crash at k=%d: %v", key, k, o.bad)))
+				vs = append(vs, mk("row-corrupt", "row-corrupt|"+kindOf(b)+"|"+pwin, fmt.Sprintf("bucket %s after crash at k=%d: %v", key, k, o.bad)))
 				continue
 			}
 			iss := cs.issued[key]
@@ -720,7 +748,7 @@ func (cs *crashState) check(prop string, k int, imgKind string, rc *recovered, i
 				for _, t := range tss {
 					id := o.fixed[t]
 					if !iss[id] {
-						vs = append(vs, mk("phantom", "phantom|fixed|"+win, fmt.Sprintf("bucket %s holds id %d at %s which no issued write contains (crash k=%d)", key, id, ts(t), k)))
+						vs = append(vs, mk("phantom", "phantom|fixed|"+pwin, fmt.Sprintf("bucket %s holds id %d at %s which no issued write contains (crash k=%d)", key, id, ts(t), k)))
 						break
 					}
 				}
@@ -740,7 +768,7 @@ func (cs *crashState) check(prop string, k int, imgKind string, rc *recovered, i
 				for _, id := range ids {
 					c := o.varCnt[id]
 					if !iss[id] {
-						vs = append(vs, mk("phantom", "phantom|variable|"+win, fmt.Sprintf("bucket %s returns record id %d which no issued write contains (crash k=%d)", key, id, k)))
+						vs = append(vs, mk("phantom", "phantom|variable|"+pwin, fmt.Sprintf("bucket %s returns record id %d which no issued write contains (crash k=%d)", key, id, k)))
 						break
 					}
 					wcount := written[id]
